@@ -69,7 +69,7 @@ let c17_table : (string * (Z.t list -> Z.t list option)) list = Model.[
   "dec_openings", run_dec_openings; "dec_proof", run_dec_proof ]
 
 let c02_table : (string * (Z.t list -> Z.t list option)) list = Model.[ "cpp", run_cpp ]
-let c08_table : (string * (Z.t list -> Z.t list option)) list = Model.[ "lkc", run_lkc; "clp", run_clp ]
+let c08_table : (string * (Z.t list -> Z.t list option)) list = Model.[ "lkc", run_lkc; "clp", run_clp; "lksel", run_lksel ]
 let c09_table : (string * (Z.t list -> Z.t list option)) list = Model.[
   "l0lastb", run_l0lastb; "l0last", run_l0last; "consumer", run_consumer; "sat", run_sat;
   "vanish", run_vanish; "starkid", run_starkid ]
